@@ -10,21 +10,23 @@
   operations `ops`, each with an arbitrary environment (states, times, periods, flags, users with
   arbitrary filters) — nothing is bounded.
 
-  F-C03 (known finding, DESIGN.md §3): a Recovery that is stopped by a notification-level filter (period
-  closed, type filter without Recovery) returns before `notified_problem_users` is cleared
-  (notification.cpp:285/345 vs. 495-497), so the list survives into the next incident and an
-  Acknowledgement (or Recovery) reaches users who were not sent that incident's Problem.  The second
-  sentence of the property is therefore carried as `…_partial` (hypothesis: every Recovery gets past the
-  notification-level filters) + `…_counterexample`; the other sentences are proved without hypothesis.
+  F-C03a (DESIGN.md §3 F-C03; repaired in /repo by cec0506): a Recovery discarded by the notification's type
+  filter used to return before `notified_problem_users` was cleared, so the list survived into the next
+  incident and an Acknowledgement reached users who were not sent that incident's Problem.  The model
+  transcribes the code after the repair; the former witness is a passing regression `example` below.
+
+  What "the current incident" means for a notification object: it ends when the object *processes* a
+  Recovery — sends it to its users, or discards it by its type filter.  A Recovery that is only withheld
+  because the notification period is closed does not end it: the code keeps it (suppressed_notifications)
+  and re-sends it when the period reopens, to exactly the users who were sent the incident's Problem —
+  which is what the property demands of that Recovery, and which would be impossible had the list been
+  forgotten when it was withheld.  If a new Problem neutralises the withheld Recovery, those users were
+  never told that the problem ended, and the incident continues for them.  With this reading the second
+  sentence holds without any hypothesis (`recovery_ack_recipients`).
 -/
 import IcingaProofs.C03.Lemmas
 
 namespace Icinga.C03
-
-/-- Every Recovery that reached the notification object also got past its notification-level filters
-    (the complement of the F-C03 classifier). -/
-def NoFilteredRecovery (tr : List Obs) : Prop :=
-  ∀ o ∈ tr, ∀ ev ∈ o.events, ev.ty = .recovery → ev.passed = true
 
 /-- **delivery_only_if** (first sentence).  In every trace of the model, a notification is delivered to a
     user only if — unless forced — notifications are enabled globally and for the checkable, the
@@ -38,23 +40,21 @@ theorem delivery_only_if (c : Cfg) (s : St) (ops : List Op) :
   exact runTrace_ok (deliveryObs c) (fun _ _ => True) (fun _ => True) c
     (fun g s op _ _ => ⟨delivery_op c g s op, trivial⟩) ops () s trivial (fun _ _ => trivial)
 
-/-  Full statement (false of the code, see `recovery_ack_recipients_counterexample`):
-      theorem recovery_ack_recipients (c : Cfg) (ops : List Op) :
-          recipientsTrace (traceOf c init ops) = none                                        -/
-
-/-- **recovery_ack_recipients_partial** (second sentence, first half).  As long as every Recovery gets
-    past the notification-level filters, Recovery and Acknowledgement notifications go only to users who
-    were sent a Problem since the last Recovery, or who do not subscribe to Problem. -/
-theorem recovery_ack_recipients_partial (c : Cfg) (ops : List Op)
-    (h : NoFilteredRecovery (traceOf c init ops)) :
+/-- **recovery_ack_recipients** (second sentence, first half).  In every trace of the model, Recovery and
+    Acknowledgement notifications — forced or not — go only to users who were sent a Problem for the
+    current incident (since the last Recovery the notification object sent or discarded by its type filter;
+    a Recovery merely withheld by the closed notification period does not end the incident), or who do not
+    subscribe to Problem. -/
+theorem recovery_ack_recipients (c : Cfg) (ops : List Op) :
     recipientsTrace (traceOf c init ops) = none := by
   unfold recipientsTrace
-  exact runTrace_ok recipientsObs RecInv (allEv RecP) c
-    (fun g s op hi hp => recipients_op c g s op hi hp) ops [] init (fun x hx => by simp [init] at hx) h
+  exact runTrace_ok recipientsObs RecInv (fun _ => True) c
+    (fun g s op hi _ => recipients_op c g s op hi) ops [] init (fun x hx => by simp [init] at hx) (fun _ _ => trivial)
 
-/-! The witness of F-C03: a notification object whose type filter lacks Recovery (48 = Problem | Acknowledgement),
-    two users subscribed to everything.  Problem to both; Recovery (filtered, nothing is cleared); next
-    incident: Problem while user 1 is disabled (only user 0 is told); Acknowledgement reaches user 1 too. -/
+/-! The former witness of F-C03a: a notification object whose type filter lacks Recovery (48 = Problem |
+    Acknowledgement), two users subscribed to everything.  Problem to both; Recovery (discarded by the type
+    filter — since cec0506 the incident's users are forgotten here); next incident: Problem while user 1 is
+    disabled (only user 0 is told); the Acknowledgement now reaches user 0 only. -/
 
 def cxCfg : Cfg := { isHost := false, interval := 60, tbegin := none, tend := none, typeFilter := 48, stateFilter := 15 }
 def cxUser (i : Nat) (en : Bool) : UEnv := { id := i, enabled := en, periodOpen := true, typeFilter := 511, stateFilter := 15 }
@@ -67,13 +67,24 @@ def cxOps : List Op :=
   [.send .problem (cxEnv 100 2 true), .send .recovery (cxEnv 200 0 true), .send .problem (cxEnv 300 2 false),
    .send .ack (cxEnv 310 2 true)]
 
-/-- **recovery_ack_recipients_counterexample** (F-C03).  The unrestricted statement is false of the code:
-    on `cxOps` the Acknowledgement of the second incident reaches user 1, who was not sent its Problem. -/
-theorem recovery_ack_recipients_counterexample :
-    recipientsTrace (traceOf cxCfg init cxOps) = some .recoveryAckRecipients ∧
+/-- Regression for F-C03a (was `recovery_ack_recipients_counterexample` before the repair). -/
+example :
+    specTrace cxCfg (traceOf cxCfg init cxOps) = none ∧
     (traceOf cxCfg init cxOps).map (fun o => o.events) =
       [[⟨.problem, false, true, [0, 1]⟩], [⟨.recovery, false, false, []⟩], [⟨.problem, false, true, [0]⟩],
-       [⟨.ack, false, true, [0, 1]⟩]] := by
+       [⟨.ack, false, true, [0]⟩]] := by
+  decide
+
+/-- A Recovery withheld by the closed period is released by the timer to exactly the users of its incident
+    (both), although user 1 is disabled for Problems in between — and the specification accepts that. -/
+example :
+    let closed (e : Env) : Env := { e with periodOpen := false }
+    let cfg : Cfg := { cxCfg with typeFilter := 511 }
+    let ops : List Op := [.send .problem (cxEnv 100 2 true), .send .recovery (closed (cxEnv 200 0 true)),
+                          .tick { cxEnv 300 0 true with lhsc := 200 }]
+    specTrace cfg (traceOf cfg init ops) = none ∧
+    (traceOf cfg init ops).map (fun o => o.events) =
+      [[⟨.problem, false, true, [0, 1]⟩], [⟨.recovery, false, false, []⟩], [⟨.recovery, false, true, [0, 1]⟩]] := by
   decide
 
 /-- **no_duplicate_problem** (second sentence, second half).  Unless the object is volatile, no user is
@@ -124,24 +135,13 @@ theorem reminder_spacing (c : Cfg) (ops : List Op) :
     (fun g s op hi _ => reminder_op c g s op hi) ops {} init
     (fun t1 l hl => by simp at hl) (fun _ _ => trivial)
 
-/-  Full statement (false of the code because of F-C03):
-      theorem model_trace_meets_spec (c : Cfg) (ops : List Op) : specTrace c (traceOf c init ops) = none   -/
-
-/-- **model_trace_meets_spec_partial** (the whole property).  For every configuration of the notification
-    object and every finite sequence of notification requests and timer runs under arbitrary
-    environments, the model's trace satisfies the whole executable specification — provided every
-    Recovery gets past the notification-level filters (only the `recipients` checker needs that). -/
-theorem model_trace_meets_spec_partial (c : Cfg) (ops : List Op)
-    (h : NoFilteredRecovery (traceOf c init ops)) :
+/-- **model_trace_meets_spec** (the whole property).  For every configuration of the notification object and
+    every finite sequence of notification requests and timer runs under arbitrary environments, the
+    model's trace satisfies the whole executable specification. -/
+theorem model_trace_meets_spec (c : Cfg) (ops : List Op) :
     specTrace c (traceOf c init ops) = none := by
   unfold specTrace
-  rw [delivery_only_if, recovery_ack_recipients_partial c ops h, no_duplicate_problem, reminder_spacing]
-
-/-- **model_trace_meets_spec_counterexample** (F-C03): without the hypothesis the specification is violated,
-    by exactly the clause about Recovery/Acknowledgement recipients. -/
-theorem model_trace_meets_spec_counterexample :
-    specTrace cxCfg (traceOf cxCfg init cxOps) = some .recoveryAckRecipients := by
-  decide
+  rw [delivery_only_if, recovery_ack_recipients, no_duplicate_problem, reminder_spacing]
 
 /-! ## Non-vacuity -/
 
@@ -154,11 +154,6 @@ example : (traceOf exCfg init
       [.send .problem (exEnv 100 100 2), .tick (exEnv 111 100 2), .tick (exEnv 170 100 2), .tick (exEnv 171 100 2),
        .send .recovery (exEnv 200 200 0)]).map (fun o => o.events) =
     [[], [⟨.problem, true, true, [0, 1]⟩], [], [⟨.problem, true, true, [0, 1]⟩], [⟨.recovery, false, true, [0, 1]⟩]] := by
-  decide
-
-/-- The hypothesis of the partial theorems is satisfiable on a non-trivial trace (Problem, Recovery, both passing). -/
-example : NoFilteredRecovery (traceOf exCfg init [.send .problem (exEnv 120 100 2), .send .recovery (exEnv 200 200 0)]) := by
-  unfold NoFilteredRecovery
   decide
 
 /-- The specification rejects a delivery while the notification period is closed … -/
